@@ -295,6 +295,7 @@ let handle_chain (toks : string list) : (string * string * string) option =
              else string_of_res string_of_z (store_ptr_cell l ex v)
            | "ret" | "cbarg" -> "OK " ^ string_of_z (unsandbox sa v)
            | "arg" | "cbret" | "free" -> "OK " ^ string_of_z (sandbox_ptr sa v)
+           | "malloc" -> string_of_res string_of_z (malloc_in_sandbox l sa true (z_of_int 1) (z_of_int 1) v)
            | "argnull" -> "OK 0"
            | _ -> failwith "xlate path") in
        (* C03 on top of C04: an address obtained from guest bits must be null or inside s *)
